@@ -153,6 +153,19 @@ def make(interp):
         else: num, den = A.dot(A.reshape(a, (-1,)) if a.ndim != 1 else a, A.reshape(A.from_value(weights), (-1,)) if A.from_value(weights).ndim != 1 else A.from_value(weights)), A.asum(A.from_value(weights))
         return interp.binop("Div", num, den)
     jnp["average"] = B(average, "jnp.average")
+    def isclose(a, b, rtol=1e-05, atol=1e-08, equal_nan=False):
+        """numpy/jax isclose: |a - b| <= atol + rtol * |b| (a TOLERANCE test, not equality)"""
+        def one(x, y):
+            x, y = toz3(x), toz3(y); x = z3.ToReal(x) if z3.is_int(x) else x; y = z3.ToReal(y) if z3.is_int(y) else y
+            ab = lambda t: z3.If(t >= 0, t, -t)
+            return ab(x - y) <= z3.RealVal(str(atol)) + z3.RealVal(str(rtol)) * ab(y)
+        if isinstance(a, SArr) or isinstance(b, SArr):
+            sh = a.shape if isinstance(a, SArr) else b.shape
+            if isinstance(a, SArr) and a.ndim == 0 and not isinstance(b, SArr): return one(a.get(()), b)
+            el = lambda v, idx: v.get(idx) if isinstance(v, SArr) and v.ndim else (v.get(()) if isinstance(v, SArr) else v)
+            return SArr(sh, lambda idx: one(el(a, idx), el(b, idx)))
+        return one(a, b)
+    jnp["isclose"] = B(isclose, "jnp.isclose")
     jnp["broadcast_to"] = B(broadcast_to)
     jnp["ravel_multi_index"] = B(ravel_multi_index); jnp["unravel_index"] = B(unravel_index); jnp["argsort"] = B(argsort)
     def product(*ranges):
